@@ -379,6 +379,12 @@ def eval_gs(case):
             continue
         strict = base['N'] <= 12
         tolE = TOL_E if (strict or not o['reortho']) else 1e-6
+        # projected-out vectors are eigenvectors of the given operator P (H + s) P at 0; unless the shift puts the
+        # wanted eigenvalue below 0 (the documented usage) they are its lowest eigenvectors, rounding noise brings
+        # them in and a long run drifts towards them at a rate that depends on what is cached: nothing to compare
+        drifts = bool(Os.shape[1]) and not (x0_in_complement and lam_c[0] + (o['E_shift'] or 0.0) < -0.05)
+        if drifts and not strict and o['reortho']:
+            continue
         if rel(r['E'], base['E'], scale) > tolE:
             fails.append(('property', 'lanczos.N_cache-changes-E', f'{tag}: {r["E"]!r} vs {base["E"]!r} opts={opts}'))
         if not o['reortho']:
